@@ -299,7 +299,7 @@ def _eval_int(t, env):
     return tot
 
 
-def cover_1d(terms, n):
+def cover_1d(terms, n, nmin=1):
     """terms: [(loop descriptor, index term, sign)], each meaning  sum over the loop of sign * f(index).
     Decides whether the indices are exactly [0, n), once each and with one sign, for EVERY n >= 1.
     Applies to loops with a positive constant step, bound n + const (or a constant), start a constant or the end value of an
@@ -322,7 +322,7 @@ def cover_1d(terms, n):
         if off is None:
             return "unknown", "index %s is not the loop variable plus a constant" % sym.show(g)
         D = max(D, abs(off))
-    for nv in range(1, D + 2 * L + 3):
+    for nv in range(nmin, nmin + D + 2 * L + 2):
         env = {n: nv}
         seen = {}
         for lp, g, sg in terms:
@@ -350,4 +350,4 @@ def cover_1d(terms, n):
             if len(signs) > 1:
                 what.append("terms enter with different signs")
             return "refuted", "for n = %d: %s" % (nv, "; ".join(what))
-    return "proved", "indices are exactly [0, n), once each, for every n (period %d, checked n = 1..%d)" % (L, D + 2 * L + 2)
+    return "proved", "indices are exactly [0, n), once each, for every n (period %d, checked n = %d..%d)" % (L, nmin, nmin + D + 2 * L + 1)
